@@ -106,6 +106,14 @@ def _yaml_constructor_foreign_raises() -> List[Tuple[str, str]]:
                             protected = True
             if not protected:
                 out.append((m.name, d))
+        # `match = <regexp>.match(text)` used as `match.groupdict()` / `match.group(..)` without a None test:
+        # AttributeError for text the (explicit) tag does not fit
+        for s in [x for x in ast.walk(m) if isinstance(x, ast.Assign) and isinstance(x.value, ast.Call) and isinstance(x.value.func, ast.Attribute) and x.value.func.attr in ("match", "fullmatch", "search") and isinstance(x.targets[0], ast.Name)]:
+            mv = s.targets[0].id
+            tested = any(isinstance(t, (ast.If, ast.IfExp, ast.While)) and any(isinstance(n, ast.Name) and n.id == mv for n in ast.walk(t.test)) for t in ast.walk(m))
+            used = any(isinstance(a, ast.Attribute) and isinstance(a.value, ast.Name) and a.value.id == mv for a in ast.walk(m))
+            if used and not tested:
+                out.append((m.name, f"{mv}.<attr> on a failed {s.value.func.attr}() [AttributeError]"))
     return sorted(set(out))
 
 
@@ -436,12 +444,24 @@ def run(ctx: Ctx) -> int:
                             rz_ = [r for r in ast.walk(h) if isinstance(r, ast.Raise) and isinstance(r.exc, ast.Call)]
                             if rz_ and all(call_leaf(r.exc) in covered for r in rz_):
                                 converted = True
-                ok = not foreign or converted or bool({"ValueError", "Exception"} & named)
+                kinds = {"AttributeError" if "[AttributeError]" in d_ else "ValueError" for _, d_ in foreign}
+                conv_kinds = set()
+                for t, part in enclosing_trys(ylc[0]):
+                    if part != "body":
+                        continue
+                    for h in t.handlers:
+                        rz_ = [r for r in ast.walk(h) if isinstance(r, ast.Raise) and isinstance(r.exc, ast.Call)]
+                        if rz_ and all(call_leaf(r.exc) in covered for r in rz_):
+                            conv_kinds |= {x.split(".")[-1] for x in handler_type_names(h)}
+                if "Exception" in conv_kinds:
+                    conv_kinds |= kinds
+                converted = converted and kinds <= (conv_kinds | named)
+                ok = not foreign or converted or bool({"Exception"} & named) or kinds <= named
                 ctx.oblige(
                     "C03.R5",
                     ok,
                     ylc[0],
-                    f"ValueError raised by PyYAML's constructors for explicitly tagged scalars ({', '.join(f'{m_}:{d_}' for m_, d_ in foreign[:4])}) is {'converted to a YAMLError inside yaml_load' if converted else 'anticipated by the yaml mode'}" if ok else f"yaml.load can raise ValueError outside the YAMLError hierarchy ({', '.join(f'{m_} calls {d_}()' for m_, d_ in foreign[:4])} on explicitly tagged text such as `!!int abc`): neither anticipated by the yaml mode nor converted in yaml_load, it escapes the parse methods as a raw ValueError",
+                    f"{sorted(kinds)} raised by PyYAML's constructors for explicitly tagged scalars ({', '.join(f'{m_}:{d_}' for m_, d_ in foreign[:4])}) is {'converted to a YAMLError inside yaml_load' if converted else 'anticipated by the yaml mode'}" if ok else f"yaml.load can raise {sorted(kinds - conv_kinds - named)} outside the YAMLError hierarchy ({', '.join(f'{m_} calls {d_}()' for m_, d_ in foreign[:6])} on explicitly tagged text such as `!!int abc` / `!!timestamp abc`): neither anticipated by the yaml mode nor converted in yaml_load, it escapes the parse methods as a foreign exception",
                     fn=yl,
                     construct="yaml constructor ValueError",
                     details={"foreign": foreign},
